@@ -3,6 +3,7 @@
 from __future__ import annotations
 
 import itertools
+import zlib
 import random
 
 import numpy
@@ -18,10 +19,21 @@ from sr.symreal import conj, lift, model_value, same_cell
 from . import matrix_common as mc
 from . import replays
 
-ENTRY_POINTS = ["model_matrix", "Formula.get_model_matrix", "ModelSpec.get_model_matrix", "materializer.get_model_matrix"]
+ENTRY_POINTS = ["model_matrix", "Formula.get_model_matrix", "ModelSpec.get_model_matrix", "ModelSpec.get_model_matrix+overrides", "materializer.get_model_matrix"]
 
 
-def build(entry, formula, data, ctx, **opts):
+def build(entry, formula, data, ctx, drop=None, **opts):
+    if drop is not None:
+        call = {"drop_rows": set(drop)}  # the caller's set of row positions to leave out: a fresh set per call
+    else:
+        call = {}
+    if entry == "ModelSpec.get_model_matrix":
+        return ModelSpec.from_spec(Formula(formula), **opts).get_model_matrix(data, context=ctx, **call)
+    if entry == "ModelSpec.get_model_matrix+overrides":
+        # every option handed to the call itself, on a spec recorded with the defaults (and the other output type)
+        other = "numpy" if opts.get("output") == "pandas" else "pandas"
+        return ModelSpec.from_spec(Formula(formula), output=other).get_model_matrix(data, context=ctx, **call, **opts)
+    opts = {**opts, **call}
     if entry == "model_matrix":
         return model_matrix(formula, data, context=ctx, **opts)
     if entry == "Formula.get_model_matrix":
@@ -77,17 +89,20 @@ def run(check: Check) -> None:
             if check.tier != "thorough":
                 variants = [variants[0]] + rng.sample(variants[1:], 5)
 
-            def fn(formula=formula, efr=efr, variants=variants):
+            # a caller-supplied drop set is an option like any other: one configuration in three carries one (no level loses all its rows: text columns of the Arrow leg infer their levels from the rows that remain)
+            drop = [[1, 3], [0], [2, 3, 6]][zlib.crc32(formula.encode()) % 9] if zlib.crc32(formula.encode()) % 9 < 3 else None
+
+            def fn(formula=formula, efr=efr, variants=variants, drop=drop):
                 a, b = sym_ab(n)
                 ctx = {"a": a, "b": b}
                 out = []
                 with symbolic_pipeline():
-                    ref = model_matrix(formula, df, context=ctx, ensure_full_rank=efr, output="pandas")
+                    ref = model_matrix(formula, df, context=ctx, ensure_full_rank=efr, output="pandas", **({"drop_rows": set(drop)} if drop else {}))
                     for e, o, m in variants:
                         opts = dict(ensure_full_rank=efr, output=o)
                         if m:
                             opts["materializer"] = m
-                        out.append(build(e, formula, df, ctx, **opts))
+                        out.append(build(e, formula, df, ctx, drop=drop, **opts))
                 return ref, out
 
             def claims(res, variants=variants):
@@ -102,8 +117,8 @@ def run(check: Check) -> None:
                     if c.shape == rc.shape:
                         yield f"{tag}: same cells for all values", conj([same_cell(c[i, j], rc[i, j]) for i in range(c.shape[0]) for j in range(c.shape[1])])
 
-            def rep(model, label, formula=formula, efr=efr):
-                p = {"kind": "c05_agree", "formula": formula, "efr": efr,
+            def rep(model, label, formula=formula, efr=efr, drop=drop):
+                p = {"kind": "c05_agree", "formula": formula, "efr": efr, "drop": drop,
                      "a": [model_value(model, z3.Real(f"a{i}")) for i in range(n)], "b": [model_value(model, z3.Real(f"b{i}")) for i in range(n)]}
                 for cand in (p, dict(p, a=A0, b=B0)):
                     bad = replays.run(cand)
@@ -112,11 +127,11 @@ def run(check: Check) -> None:
                 return None
 
             rig.run_sym(check, "agree", fn, claims, replay=rep, timeout_ms=tmo, case_id=f"{formula} efr={efr}",
-                        sample={"formula": formula, "ensure_full_rank": efr, "variants": [list(map(str, v)) for v in variants[:3]]}, record=recorded < 25)
+                        sample={"formula": formula, "ensure_full_rank": efr, "caller_drop_rows": drop, "variants": [list(map(str, v)) for v in variants[:3]]}, record=recorded < 25)
             recorded += 1
             # ground companions
             for extra in ({}, {"unused_level": True, "mats": ["pandas"]}, {"unused_level": True, "mats": ["narwhals"]}):
-                p = {"kind": "c05_agree", "formula": formula, "efr": efr, "a": A0, "b": B0, "legs": "sparse+arrow", **extra}
+                p = {"kind": "c05_agree", "formula": formula, "efr": efr, "a": A0, "b": B0, "legs": "sparse+arrow", "drop": drop, **extra}
                 bad = replays.run(p)
                 check.obligation("agree.sparse_arrow/ground", "refuted" if bad else "ground")
                 if bad:
